@@ -59,7 +59,14 @@ def build_loader():
             n = n[:-9]
         if n in ("pyairtouch.comms.udp", "pyairtouch.__main__", "pyairtouch.main"):
             continue
-        L.load(n)
+        try:
+            L.load(n)
+        except Exception as e:  # noqa: BLE001
+            # a module the interpreter cannot load (a construct outside the modelled subset at module level) only concerns
+            # the obligation sets that use it: they end undecided when they ask for it; the other properties are unaffected
+            L.load_failures = getattr(L, "load_failures", {})
+            L.load_failures[n] = f"{type(e).__name__}: {e}"
+            L.modules.pop(n, None)
     vc.mark_generation0(L)
     return L
 
@@ -191,6 +198,11 @@ def main(argv=None):
                 if f is None or f is vc.MISSING:
                     raise KeyError(fn)
             except Exception:  # noqa: BLE001
+                lf = getattr(_LOADER, "load_failures", {})
+                if lf:
+                    first = sorted(lf.items())[0]
+                    print(f"UNDECIDED property={prop} set={o.name}: module {first[0]} (and what imports it) is outside the modelled subset: {first[1][:200]}")
+                    return 2
                 print(f"CHECKER-ERROR property={prop} binding: contract {o.name!r} targets {fn} which does not exist in the current tree")
                 return 3
     phases = {"load": round(time.time() - t0, 2)}
